@@ -229,6 +229,23 @@ theorem binding_name_links_partial (p : List Ent) (fuel : Nat) (hn : noExtension
     inheritProject p fuel = p :=
   inheritList_noExtension p fuel p hn
 
+/-- **`proc_internals` and `display` are independent options** (clause "given `display` (... overridden in an
+    entity's metadata ...), `proc_internals` and `hide_undoc`"): what `prune()` leaves of a procedure whose internals
+    are switched off does not depend on the display list in force in it - so not on the project's `display`, not on
+    what it inherits, and not on the `display:` metadata of the procedure itself (any two lists `d`, `d'`).  A
+    `display:` override can never switch unselected internals back on.  Tied to the code by
+    `prune_probe_matches_model` (the guard and the lists it empties), `set_display_probe_matches_model`
+    (`_set_display` does not look at `proc_internals`) and the prune stream. -/
+theorem internals_off_ignores_display (cfg : Cfg) (i : Info) (cs : Ents) (d d' : List Word)
+    (h : internalsOff cfg i = true) : prune cfg d (.mk i cs) = prune cfg d' (.mk i cs) := by
+  simp only [prune, h]
+  rw [pruneKids_off_display cfg (classOf i.kind) d d' cs]
+
+/-- non-vacuity: a procedure with internals (kind, `proc_internals: false`) for which the hypothesis holds
+    and the lists really are emptied -/
+example : internalsOff { display := [.pub, .priv], procInternals := true, hideUndoc := false, fileInherits := true }
+    { (default : Info) with kind := .subroutine, pint := some false, disp := [.pub, .priv] } = true := by decide
+
 /-- Tie to the source (re-probed on every run, round 6): the macros `type_summary` and `bound_info` of
     `macros.html`, rendered by FORD's own Jinja2 environment on the real (correlated) types of the probe project -
     a binding the type declares and one it inherits x `tb.visible` x `visible` of the declaring type x
